@@ -25,7 +25,8 @@ RULE = ("job = seed (+ optional grid cell (role, version, suite)) -> tlslite "
         "session_reused vs connection.resumed agree; data intact in both "
         "directions.  distinct = digest(configuration); non-trivial = both "
         "sides completed and exchanged data"
-        ' Also version skew (tlslite supports more than the foreign peer negotiates) and a volume cell of TLS 1.2 DHE handshakes (value-dependent secrets).  Violating runs are replayed exactly against the recorded OpenSSL peer (tape).')
+        ' Also version skew (tlslite supports more than the foreign peer negotiates) and a volume cell of TLS 1.2 DHE handshakes (value-dependent secrets).  Violating runs are replayed exactly against the recorded OpenSSL peer (tape).'
+        ' The OpenSSL peer may also support more than tlslite (TLS 1.3 capable peer, tlslite capped at 1.2).')
 LEVEL_TEXT = ("Grid over (role, version, shared suite) in the quick tier plus "
               "seeded random configurations; OpenSSL is a real, independent "
               "implementation, so a bug that tlslite's client and server "
